@@ -68,7 +68,20 @@ def rule_R13_1(ctx):
             if f2 is f:
                 need.add(guards.field_terms(f2, kd2, ao2).get("need"))
         r.inst("%s: minimum = %s" % (f.path, guards.term_str(t) if t else None))
-        if t and t[0] == "sub" and t[2] == ("const", 1) and (any(same_term(f, t[1], n_) for n_ in need) or not need):
+        # where does the collecting parameter live?  With a bool flag next to
+        # the list it is the list's last element (minimum = len - 1); when the
+        # selector is the *presence of an optional pattern* (`rest: Option<Box<Expr>>`)
+        # it is stored apart from the list it is compared with (minimum = len)
+        sel = guards.selector_guard_of(f, guards.guard_of(f, bb)[0]) if guards.guard_of(f, bb) else None
+        apart = False
+        if sel is not None and sel[2] and sel[2][0] == "call" and (sel[2][1] or "").endswith(("::is_some", "::is_none")):
+            cs_ = f.call_at(sel[2][2])
+            apart = cs_ is not None and bool(cs_.argtys) and "std::option::Option<" in cs_.argtys[0] \
+                and "ast::RawExpr" in cs_.argtys[0]
+        if apart and t and need and any(same_term(f, t, n_) for n_ in need):
+            r.inst("%s: the collecting parameter is stored apart from the fixed ones (%s)" % (f.path, sel[2][1].split("::")[-1]))
+            r.ok()
+        elif t and t[0] == "sub" and t[2] == ("const", 1) and (any(same_term(f, t[1], n_) for n_ in need) or not need):
             r.ok()
         else:
             r.fail("%s | minimum is not params-1" % f.path,
@@ -104,13 +117,33 @@ def rule_R13_2(ctx):
                    "a fresh set inside a nested pattern lets a name repeat "
                    "across nesting levels")
     HS = "std::collections::HashSet<std::string::String>"
+    import anchors
+    # the set may travel inside a struct of the binder (`Binder{.., names_in_binding}`):
+    # a value of such a *carrier* stands for the pattern's name set
+    carriers = set()
+    for path, a in prog.adts.items():
+        if path.startswith(("std::", "core::", "alloc::")) or len(a.get("variants", [])) != 1:
+            continue
+        if any(fd["ty"] == HS for fd in a["variants"][0]["fields"]):
+            carriers.add(path)
+
+    def set_ty(t):
+        import re as _re
+        return t == "&mut " + HS or (_re.sub(r"'[a-z_]+ ", "", t).startswith("&mut ")
+                                     and anchors._strip_ty(t) in carriers)
+    # constructors of a carrier: functions that return one (they create its set)
+    ctors = {f.path for f in prog.hand_fns() if not f.is_closure and not f.from_expansion and f.locals
+             and anchors._strip_ty(f.locals[0]) in carriers and not f.locals[0].startswith("&")}
     n_new = 0
     for f in prog.hand_fns():
         if f.from_expansion or not f.module.startswith("eval"):
             continue
-        takes_set = any(f.locals[i] == "&mut " + HS for i in range(1, f.arg_count + 1))
+        takes_set = any(set_ty(f.locals[i]) for i in range(1, f.arg_count + 1))
         news = [c for c in f.calls() if (c.res or "").endswith("HashSet::<T>::new")
                 and (c.dstty or "").startswith(HS)]
+        if f.path in ctors:
+            news = []          # counted at the constructor's call sites
+        news += [c for c in f.calls() if not c.is_ptr and c.res in ctors]
         n_new += len(news)
         if takes_set:
             r.inst("%s takes the pattern's name set; creates %d new set(s)" % (f.path, len(news)))
@@ -122,7 +155,7 @@ def rule_R13_2(ctx):
             else:
                 r.ok()
             # recursive binding calls pass the received set
-            pi = [i for i in range(1, f.arg_count + 1) if f.locals[i] == "&mut " + HS][0]
+            pi = [i for i in range(1, f.arg_count + 1) if set_ty(f.locals[i])][0]
             for c in f.calls():
                 if c.is_ptr:
                     continue
@@ -130,9 +163,10 @@ def rule_R13_2(ctx):
                 if g is None or not g.full or g.is_closure:
                     continue
                 for i, t in enumerate(c.argtys):
-                    if t == "&mut " + HS:
+                    if set_ty(t):
                         cp = tuple(p for p in f.canon_op(c.args[i]) if p not in ("&", "*"))
-                        if cp == (("arg", pi),):
+                        # (the carrier itself, or its set field)
+                        if cp and cp[0] == ("arg", pi) and all(p[0] == "f" for p in cp[1:]):
                             r.ok()
                         else:
                             r.fail("%s | passes another name set to %s" % (f.path, g.path.split("::")[-1]),
